@@ -23,9 +23,11 @@ import (
 	"context"
 	"encoding/hex"
 	"errors"
+	"io"
 	"sort"
 
 	"github.com/pulumi/esc"
+	"github.com/pulumi/esc/ast"
 	"github.com/pulumi/esc/eval"
 	"github.com/pulumi/esc/syntax"
 	"github.com/rivo/uniseg"
@@ -316,14 +318,14 @@ func c19(c map[string]any) map[string]any {
 			status[name] = "loaddiag"
 			continue
 		}
-		var env *esc.Environment
-		var ediags syntax.Diagnostics
-		ectx, _ := esc.NewExecContext(map[string]esc.Value{})
-		if mode == "eval" {
-			env, ediags = eval.EvalEnvironment(context.Background(), name, decl, nil, c19Providers{}, envs, ectx)
-		} else {
-			env, ediags = eval.CheckEnvironment(context.Background(), name, decl, nil, c19Providers{}, envs, ectx, true)
+		run := func(decl *ast.EnvironmentDecl) (*esc.Environment, syntax.Diagnostics) {
+			ectx, _ := esc.NewExecContext(map[string]esc.Value{})
+			if mode == "eval" {
+				return eval.EvalEnvironment(context.Background(), name, decl, nil, c19Providers{}, envs, ectx)
+			}
+			return eval.CheckEnvironment(context.Background(), name, decl, nil, c19Providers{}, envs, ectx, true)
 		}
+		env, ediags := run(decl)
 		out.diags(ediags, name)
 		if env == nil {
 			status[name] = "empty"
@@ -333,6 +335,33 @@ func c19(c map[string]any) map[string]any {
 			status[name] = "diags"
 		} else {
 			status[name] = "ok"
+		}
+		// Other routes to the same positions (every range they report is recorded next to the first route's; exact
+		// duplicates are dropped below, so on a tree where the routes agree nothing is added):
+		//  (1) the diagnostics are printed with the declaration's own writer and the SAME declaration is evaluated again;
+		//  (2) the text is loaded through the io.Reader entry point eval.LoadYAML.
+		others := []*esc.Environment{}
+		func() {
+			defer func() { _ = recover() }()
+			w := decl.NewDiagnosticWriter(io.Discard, 0, false)
+			for _, ds := range []syntax.Diagnostics{ldiags, ediags} {
+				for _, d := range ds {
+					if d != nil {
+						_ = w.WriteDiagnostic(&d.Diagnostic)
+					}
+				}
+			}
+		}()
+		if env2, ediags2 := run(decl); env2 != nil {
+			out.diags(ediags2, name)
+			others = append(others, env2)
+		}
+		if decl3, ldiags3, err3 := eval.LoadYAML(name, bytes.NewReader(doc.src)); err3 == nil && decl3 != nil {
+			out.diags(ldiags3, name)
+			if env3, ediags3 := run(decl3); env3 != nil {
+				out.diags(ediags3, name)
+				others = append(others, env3)
+			}
 		}
 		var vals *yaml.Node
 		if doc.root != nil {
@@ -355,6 +384,26 @@ func c19(c map[string]any) map[string]any {
 		sort.Strings(keys)
 		for _, k := range keys {
 			out.walkValue(env.Properties[k])
+		}
+		for _, oe := range others {
+			out.seen = nil // values are remembered by range: let the other route's values be walked again
+			keys = keys[:0]
+			for k := range oe.Exprs {
+				keys = append(keys, k)
+			}
+			sort.Strings(keys)
+			for _, k := range keys {
+				_, vn := c19MapValue(vals, k)
+				out.walkExpr(oe.Exprs[k], doc, vn, []any{k})
+			}
+			keys = keys[:0]
+			for k := range oe.Properties {
+				keys = append(keys, k)
+			}
+			sort.Strings(keys)
+			for _, k := range keys {
+				out.walkValue(oe.Properties[k])
+			}
 		}
 	}
 
